@@ -49,10 +49,15 @@ CLAIMED["C05"] = dict(
 CLAIMED["C03"] = dict(
     text=("Lean theorem C03_text_eq: for every document and both views the text indexed by the engine (model of "
           "DocumentMapper) equals the text the client reads (model of extract_text_from_stream), proved by a simulation "
-          "between the two paragraph state machines and induction over blocks/tables/parts; C03_spans_partition. Tie: "
+          "between the two paragraph state machines and induction over blocks/tables/parts; C03_spans_partition; "
+          "C03_indexed_text_is_annotated_document (what an offset can denote: the indexed raw text is the rendering of a flat "
+          "segment list whose text characters are, in order, the document's characters tagged by their open marks, prefixes "
+          "and separators bare - every document). Tie: "
           "both models are compared with the real reader and mapper on every generated document (both views); oracle: "
           "reader text == engine text, spans partition the text and real spans point into their run. The clause 'an "
-          "indexed edit changes exactly the addressed characters' is decided with the engine checks (C01/C02/C12)."),
+          "indexed edit changes exactly the addressed characters' is decided by this check's indexed-edit oracles (ranges "
+          "across runs / line breaks / markers / inside pending insertions, insertions at a paragraph's end offset) and with "
+          "the engine checks (C01/C02/C12)."),
     note=NOTE_COMMON + "ids are non-empty; style-id -> style-name table is the generator's style sheet; fuzzy regex not involved.",
     technique="Lean 4 proof by simulation of two state machines + differential correspondence",
     design="§5 C03")
@@ -85,7 +90,8 @@ CLAIMED["C04"] = dict(
           "C04_clean_complete (accepted view of a paragraph = formatted segment of every non-deleted run, once, in order, "
           "nothing else); C04_raw_is_flat_markup (the raw view is the rendering of a flat segment list: delimiters balanced, "
           "never nested); C04_raw_annotation (every character once, in order, in the kind of block its enclosing marks call "
-          "for: deleted > inserted > commented > bare); C04_accept_raw_eq_clean and C04_paragraph_read_accepted (the raw "
+          "for: deleted > inserted > commented > bare) and C04_document_annotation (the same for whole documents - stories, "
+          "nested and merged tables, prefixes and separators bare - with no hypothesis); C04_accept_raw_eq_clean and C04_paragraph_read_accepted (the raw "
           "string read by the CriticMarkup reader with everything accepted == accepted view); "
           "C04_meta_blocks_are_rendered_groups + C04_listed_marks_are_those_open_at_text (metadata blocks are built from "
           "exactly one snapshot of the open changes / comment ranges per text-carrying run); C04_document_read_accepted_partial "
@@ -172,7 +178,8 @@ CLAIMED["C10"] = dict(
           "any batch / review round), C10_comment_parts_stay_linked_actions, C10_anchor_encloses, C10_reply_unknown_skipped; "
           "C10_comment_shown_with_insertion / _deletion / _replacement (engine shape read by the reader model: the comment id and "
           "the change id are open in one snapshot of the paragraph's metadata, hence rendered in one block - any surrounding "
-          "paragraph content). " + ENGINE_TIE +
+          "paragraph content); C10_reply_shown_with_thread (whenever the reader writes a comment into a metadata block, every "
+          "comment whose parent it is has its line in that block). " + ENGINE_TIE +
           "Oracle: every applied commented edit (replacement, insertion, deletion, multi-line, heading) has exactly one "
           "new comment anchored on its own marks and shown with them in the raw view; replies threaded and shown with "
           "their thread; unknown parents skipped."),
